@@ -167,6 +167,23 @@ func (g *Gen) call(x ssa.Value, cc *ssa.CallCommon, st *State) {
 		}
 		vars[fmt.Sprintf("arg%d", i)] = a
 	}
+	if mc, ok := cc.Value.(*ssa.MakeClosure); ok && callee != nil {
+		cv := g.val(mc)
+		for i, fv := range callee.FreeVars {
+			if i < len(cv.Clo) {
+				vars[fv.Name()] = g.lazyCell(cv.Clo[i])
+			}
+		}
+	}
+	// calls through a function-typed parameter use the caller's `callee <param>:` clause
+	if ct == nil && g.c != nil {
+		if p, ok := cc.Value.(*ssa.Parameter); ok {
+			if dc := g.c.DynCallee[p.Name()]; dc != nil {
+				ct = dc
+				cname = "param:" + p.Name()
+			}
+		}
+	}
 	pre := st.clone()
 	// caller-side call-site requirements
 	if g.c != nil {
@@ -580,6 +597,15 @@ func (g *Gen) unboxFn(sort string) string {
 
 func (g *Gen) makeInterface(x *ssa.MakeInterface, st *State) {
 	g.ensureExtra("(declare-fun ifacetag (Int) Int)")
+	if c, ok := x.X.(*ssa.Const); ok && c.Value != nil {
+		if b, ok := c.Type().Underlying().(*types.Basic); ok && b.Info()&types.IsInteger != 0 {
+			// boxing a constant: one value per (type, constant), so that err == syscall.EINTR is meaningful
+			n := "ifc_" + san(c.Type().String()) + "_" + san(c.Value.ExactString())
+			g.ensureExtra(fmt.Sprintf("(declare-const %s Int)\n(assert (< %s (- 1000000)))\n(assert (= (ifacetag %s) %d))", n, n, n, g.typeTag(x.X.Type())))
+			g.vals[x] = Val{S: n, Sort: "Int", G: x.Type()}
+			return
+		}
+	}
 	v := g.val(x.X)
 	sort := g.m.sortOf(x.X.Type())
 	k := g.declare("if_"+x.Name(), "Int")
